@@ -6,6 +6,7 @@ import (
 	"io"
 	"regexp"
 	"strings"
+	"sync"
 	"sync/atomic"
 	"time"
 
@@ -21,6 +22,7 @@ import (
 // the grpc-go client as the independent decoder of what the client gets.
 
 type sockLane struct {
+	mu   sync.Mutex
 	s    *rpcSvc
 	srvs map[string]*wire.Server
 	ccs  map[string]*grpc.ClientConn
@@ -36,6 +38,8 @@ func (l *sockLane) close() {
 }
 
 func (l *sockLane) conn(target string, o Opts) (*grpc.ClientConn, *wire.Server, error) {
+	l.mu.Lock()
+	defer l.mu.Unlock()
 	k := target + "|" + o.key()
 	if cc := l.ccs[k]; cc != nil {
 		return cc, l.srvs[k], nil
